@@ -1,0 +1,31 @@
+//go:build verif
+
+package hostsfile
+
+// Contracts for the deductive verifier in /verif (govc); comments only.
+
+/*@
+func cutStringField
+  ensures safe_shrinks: len(field) + len(tail) <= len(data)
+
+func cutField
+  ensures safe_shrinks: len(field) + len(tail) <= len(data)
+
+func (*Record).UnmarshalText
+  loop 0
+    invariant safe_count: 0 <= n && n + len(f) + len(t) <= len(hosts)
+    decreases len(f) + len(t)
+
+// The byte counts of a record fit in memory: the sum of the name lengths
+// cannot wrap around (physical bound, stated as a precondition).
+func (Record).MarshalText
+  requires len(rec.Names) <= 1000000000
+  requires forall i in 0..len(rec.Names): len(rec.Names[i]) <= 1000000000
+  loop 0
+    invariant safe_sum: 0 <= namesLen && namesLen <= (rangeindex + 1) * 1000000001
+
+func Parse
+  requires dst != nil
+  loop 0
+    decreases scanRemaining(deref(s))
+@*/
